@@ -50,6 +50,7 @@ def run(rep, tier, seed):
         case = engine.Case(t, v)
         rep.case('corpus ' + case.canon, nontrivial=True)
         check_case(rep, drv, case, [('ber', dm, ch)], rng)
+    check_any_positions(rep)
     for case in engine.gen_cases(rng, n, max_depth=3, allow_any=True, any_ber=True):
         if not engine.representable(case):
             rep.count('unrepresentable')
@@ -70,6 +71,77 @@ def run(rep, tier, seed):
         check_case(c, drv, case, [mode], None)
     engine.post_shrink(rep, drv, check_one)
     drv.close()
+
+
+def check_any_positions(rep):
+    """ANY next to members the decoder has to tell apart by tag (the TagMap default-type mechanism): as the tail of a
+    SEQUENCE, as an OPTIONAL member followed by further OPTIONAL/DEFAULT members, as first / middle / last member of a SET;
+    present and absent, the siblings present and absent, contents primitive, constructed and explicitly tagged (tags distinct
+    from the siblings'), every encoder mode.  Direct oracle on the real codec (the Lean model's universe keeps ANY out of tag
+    dispatch).  An ANY alternative of a CHOICE is not a position the library documents and is not drawn."""
+    from pyasn1.type import univ, namedtype
+    from pyasn1.codec.ber import encoder, decoder
+    from pyasn1 import error
+    NT, OT, DT = namedtype.NamedType, namedtype.OptionalNamedType, namedtype.DefaultedNamedType
+    contents = [bytes.fromhex(h) for h in ('0403666f78', '3003020107', 'a203020107', '0500', '240704026162040163', 'df810100', '')]
+    shapes = [
+        ('seq-tail', univ.Sequence, [NT('id', univ.Integer()), DT('critical', univ.Boolean(False)), OT('params', univ.Any())]),
+        ('seq-middle', univ.Sequence, [NT('id', univ.Integer()), OT('params', univ.Any()), DT('critical', univ.Boolean(False))]),
+        ('seq-middle2', univ.Sequence, [OT('params', univ.Any()), OT('flag', univ.Boolean()), OT('n', univ.Integer()), NT('e', univ.Enumerated())]),
+        ('seq-two-runs', univ.Sequence, [OT('q', univ.Null()), OT('params', univ.Any()), OT('flag', univ.Boolean()), NT('id', univ.Integer()),
+                                         OT('more', univ.Any()), DT('critical', univ.Boolean(False))]),
+        ('set-first', univ.Set, [NT('payload', univ.Any()), NT('id', univ.Integer())]),
+        ('set-last', univ.Set, [NT('id', univ.Integer()), NT('payload', univ.Any())]),
+        ('set-middle', univ.Set, [NT('id', univ.Integer()), OT('payload', univ.Any()), DT('b', univ.Boolean(True))]),
+    ]
+    others = {'critical': True, 'flag': True, 'n': 3, 'b': False, 'q': ''}
+    required = {'id': 5, 'e': 2}
+    for name, cls, comps in shapes:
+        T = cls(componentType=namedtype.NamedTypes(*comps))
+        for content in contents:
+            for with_others in (True, False):
+                for with_any in (True, False):
+                    if not content and with_any:
+                        continue
+                    if name == 'seq-two-runs' and content[:1] == b'\x05':
+                        continue        # the content's tag must differ from the siblings' (q is a NULL)
+                    v = T.clone()
+                    for nt in comps:
+                        if isinstance(nt.asn1Object, univ.Any):
+                            if with_any or not nt.isOptional:
+                                v[nt.name] = univ.Any(content or bytes.fromhex('0500'))
+                        elif nt.isOptional or nt.isDefaulted:
+                            if with_others:
+                                v[nt.name] = others[nt.name]
+                        else:
+                            v[nt.name] = required[nt.name]
+                    for dm in (True, False):
+                        for ch in (0, 1, 3, 1000):
+                            rep.case('any-position %s %s %s %s %s %d' % (name, content.hex(), with_others, with_any, dm, ch), nontrivial=True)
+                            rep.count('any-positions')
+                            replay = {'kind': 'any-position', 'shape': name, 'content': content.hex(), 'siblings': with_others,
+                                      'any_present': with_any, 'defMode': dm, 'chunk': ch}
+                            try:
+                                data = encoder.encode(v, defMode=dm, maxChunkSize=ch)
+                            except Exception as ex:  # noqa
+                                rep.fail('any-position-encode:' + type(ex).__name__, 'encoder raised %s' % ex, replay)
+                                continue
+                            try:
+                                out, rest = decoder.decode(data, asn1Spec=T)
+                            except error.PyAsn1Error as ex:
+                                rep.fail('any-position-roundtrip:%s' % name, 'own encoding %s refused: %s' % (data.hex(), ex), replay)
+                                continue
+                            except Exception as ex:  # noqa
+                                rep.fail('any-position-leak:' + type(ex).__name__, 'decoder raised %s on %s' % (ex, data.hex()), replay)
+                                continue
+                            same = rest == b'' and all(
+                                (out.getComponentByName(nt.name, default=None, instantiate=False) is None) ==
+                                (v.getComponentByName(nt.name, default=None, instantiate=False) is None) and
+                                (v.getComponentByName(nt.name, default=None, instantiate=False) is None or
+                                 bytes(encoder.encode(out[nt.name])) == bytes(encoder.encode(v[nt.name]))) for nt in comps)
+                            if not same:
+                                rep.fail('any-position-roundtrip:%s' % name, '%s decoded to %s, remainder %s' % (
+                                    data.hex(), out.prettyPrint().replace('\n', ' '), rest.hex()), replay)
 
 
 def gen_ty(s):
